@@ -32,8 +32,9 @@ def run_c15(tier):
     workdir = tempfile.mkdtemp(prefix='prophy-verif-')
     try:
         reqs, rows = [], []
+        directed = dag.directed_sets()
         for gi in range(chk.scale(120, 1200)):
-            sc = dag.gen_dag(chk.rng, n=chk.rng.randint(4, 12), enum_heavy=(gi % 3 == 0))
+            sc = directed[gi] if gi < len(directed) else dag.gen_dag(chk.rng, n=chk.rng.randint(4, 12), enum_heavy=(gi % 3 == 0))
             deps = dag.true_deps(sc)
             names = [d.name for d in sc.decls]
             baseline = None
